@@ -24,7 +24,9 @@ import (
 	"net/http"
 	"net/http/httputil"
 	"net/url"
+	"strconv"
 	"strings"
+	"sync/atomic"
 	"time"
 
 	libio "github.com/fatedier/golib/io"
@@ -47,6 +49,8 @@ type HTTPReverseProxy struct {
 	vhostRouter *Routers
 
 	responseHeaderTimeout time.Duration
+
+	nextRegID atomic.Uint64
 }
 
 func NewHTTPReverseProxy(option HTTPReverseProxyOptions, vhostRouter *Routers) *HTTPReverseProxy {
@@ -81,11 +85,13 @@ func NewHTTPReverseProxy(option HTTPReverseProxyOptions, vhostRouter *Routers) *
 					log.Tracef("choose endpoint name [%s] for http request host [%s] path [%s] httpuser [%s]",
 						endpoint, originalHost, reqRouteInfo.URL, reqRouteInfo.HTTPUser)
 				}
-				// Set {domain}.{location}.{routeByHTTPUser}.{endpoint} as URL host here to let http transport reuse connections.
+				// Set {domain}.{location}.{routeByHTTPUser}.{endpoint}.{regID} as URL host here to let http transport reuse connections.
+				// regID keeps connections created for an earlier registration of the same route from being reused.
 				req.URL.Host = rc.Domain + "." +
 					base64.StdEncoding.EncodeToString([]byte(rc.Location)) + "." +
 					base64.StdEncoding.EncodeToString([]byte(rc.RouteByHTTPUser)) + "." +
-					base64.StdEncoding.EncodeToString([]byte(endpoint))
+					base64.StdEncoding.EncodeToString([]byte(endpoint)) + "." +
+					strconv.FormatUint(rc.regID, 10)
 
 				for k, v := range rc.Headers {
 					req.Header.Set(k, v)
@@ -147,6 +153,7 @@ func NewHTTPReverseProxy(option HTTPReverseProxyOptions, vhostRouter *Routers) *
 // Register register the route config to reverse proxy
 // reverse proxy will use CreateConnFn from routeCfg to create a connection to the remote service
 func (rp *HTTPReverseProxy) Register(routeCfg RouteConfig) error {
+	routeCfg.regID = rp.nextRegID.Add(1)
 	err := rp.vhostRouter.Add(routeCfg.Domain, routeCfg.Location, routeCfg.RouteByHTTPUser, &routeCfg)
 	if err != nil {
 		return err
@@ -334,6 +341,11 @@ func (rp *HTTPReverseProxy) ServeHTTP(rw http.ResponseWriter, req *http.Request)
 
 	if req.Method == http.MethodConnect {
 		rp.connectHandler(rw, newreq)
+	} else if newreq.Context().Value(RouteConfigKey).(*RouteConfig) == nil {
+		// No route: answer here. The transport must not see the request, its connection pool is
+		// keyed by URL host and the client controls the Host header.
+		rw.WriteHeader(http.StatusNotFound)
+		_, _ = rw.Write(getNotFoundPageContent())
 	} else {
 		rp.proxy.ServeHTTP(rw, newreq)
 	}
